@@ -7,6 +7,8 @@ CONSTANTS
   Observe = FALSE
   ObserveFrom = 1
   TrackDist = FALSE
+  TrackOperand = FALSE
+  AdoptLists = FALSE
   CacheChecksCount = TRUE
 INVARIANT GraphAgrees
 CHECK_DEADLOCK FALSE
